@@ -4,7 +4,13 @@ use std::fs::{create_dir, hard_link, remove_dir, remove_dir_all, remove_file, re
 use std::io::ErrorKind;
 use std::ops::Bound;
 use std::path::{Path, PathBuf};
+#[cfg(not(loom))]
 use std::sync::{Arc, Condvar, Mutex, RwLock};
+
+#[cfg(loom)]
+use loom::sync::{Condvar, Mutex, RwLock};
+#[cfg(loom)]
+use std::sync::Arc;
 
 use biometrics::Counter;
 use indicio::{INFO, clue};
